@@ -240,7 +240,10 @@ class P:
                 j=0; ok=True
                 while j<len(tail):
                     if tail[j:j+4]==['.','unwrap','(',')']: j+=4
-                    elif tail[j:j+3]==['.','expect','('] : j=match_close(tail,j+2)+1
+                    elif tail[j]=='?': j+=1
+                    elif tail[j]=='.' and j+2<len(tail) and tail[j+1] in ('expect','unwrap_or_else','map_err','or_else','unwrap_or_default') and tail[j+2]=='(':
+                        # (still the guard itself: how a poisoned lock or an error is dealt with)
+                        j=match_close(tail,j+2)+1
                     else: ok=False; break
                 if ok:
                     pre=s.expr(rhs[:i-1])
@@ -285,6 +288,22 @@ class P:
                     if k<len(t) and t[k]=='else': k+=1; continue
                     break
                 ev+=s.ifchain(t[i:k]); i=k; continue
+            if x in ('Self','Melda','DataStorage') and i+3<len(t) and t[i+1]=='::' and t[i+3]=='(' and re.match(r'[a-z_]\w*$',t[i+2]):
+                # a call in function syntax: `Self::f(self, ..)`, `Melda::f(other, ..)`; the receiver is the first argument
+                e=match_close(t,i+3)
+                args=t[i+4:e]
+                first=[a for a in args[:3] if a not in ('&','mut')]
+                fname=t[i+2]
+                own = 'melda' if (x=='Melda' or (x=='Self' and s.infile=='melda')) else 'ds'
+                tgt=None
+                if first and first[0] in ('self','other'):
+                    if own=='melda' and fname in s.fn: tgt=('M',fname,first[0])
+                    elif own=='ds' and fname in s.ds: tgt=('D',fname,first[0])
+                elif first and own=='ds' and first[0] in s.ctx.get('data_guards',{}) and fname in s.ds:
+                    tgt=('D',fname,'other' if s.ctx['data_guards'][first[0]]=='other' else 'self')
+                ev+=s.expr(args, pre_par)
+                if tgt: ev.append(['call',tgt[0]+'.'+tgt[1],tgt[2]])
+                i=e+1; continue
             if x=='drop' and t[i+1]=='(' and t[i+3]==')':
                 ev.append(['drop',t[i+2]]); i+=4; continue
             if x in LOCKM and i>0 and t[i-1]=='.' and t[i+1:i+3]==['(',')']:
